@@ -25,7 +25,7 @@ ASSUMPTIONS = ['series tolerance 1e-12 x number of geos (summation order); deriv
                'test outcomes compared exactly unless within 1e-9 of flipping']
 EXHAUSTIVE = {'quick': False, 'thorough': False}
 MINIMA = {'quick': {'shared_data_searches': 40, 'designs_checked': 400, 'distinct_nontrivial': 50, 'truncated_window_cases': 30},
-          'thorough': {'shared_data_searches': 400, 'designs_checked': 6000, 'distinct_nontrivial': 1000, 'truncated_window_cases': 400}}
+          'thorough': {'shared_data_searches': 400, 'designs_checked': 6000, 'distinct_nontrivial': 600, 'truncated_window_cases': 400}}
 N = {'quick': 480, 'thorough': 4000}
 N_LARGE = {'quick': 16, 'thorough': 120}
 CASE_TIMEOUT = {'quick': 300, 'thorough': 900}
